@@ -31,7 +31,23 @@ def run(ctx):
         bs = D.batch_sequence(rng, n, rng.randint(1, 3))
         setrefs = sorted(rng.sample(range(2, n), rng.randint(0, 1)))
         tb.append(D.run_batch(p, bs, setrefs, first_is_reference=rng.random() < 0.8, seed=rng.randrange(10 ** 6)))
-    ctx.validate("KdqDetector", tb, "KdqTreeBatch batch sequences", sabotage=D.det_sabotage, replay=rep_batch(tb),
+    # heavy-tailed data with the default-like count_ubound: the reference tree then has sparsely filled outer leaves,
+    # which is where a bootstrap that mis-bins its samples shows (critical value far outside the bracket)
+    import numpy as _np
+    for i in range(4 if q else 24):
+        p = {"alpha": rng.choice([0.05, 0.1, 0.2]), "bootstrap_samples": 200, "count_ubound": rng.choice([50, 100]), "lbnum": 0, "lbden": 4}   # (cutpoint bound 0: like the default 2e-10)
+        nr = _np.random.RandomState(rng.randrange(2 ** 31))
+        d = rng.choice([1, 2])
+        scale = 1.0
+        bs = []
+        for b in range(5):
+            if b in (2, 4):
+                scale = rng.choice([0.5, 1.6, 2.5])
+            rows = [[int(v) for v in row] for row in _np.round(nr.lognormal(0, 1, size=(rng.randint(400, 900), d)) * 200 * scale)]
+            rows[rng.randrange(len(rows))] = [int(200 * scale * rng.choice([150, 400]))] * d          # one far outlier: an end leaf with a single point
+            bs.append(rows)
+        tb.append(D.run_batch(p, bs, (), True, seed=rng.randrange(10 ** 6)))
+    ctx.validate("KdqDetector", tb, "KdqTreeBatch batch sequences (incl. heavy-tailed data)", sabotage=D.det_sabotage, replay=rep_batch(tb),
                  nontrivial=lambda t: any(e["state"] == "drift" for e in t["ev"]))
     ctx.assumptions += ["the bootstrap critical value is bound to the private _critical_dist when readable and must lie in an independently "
                         "bootstrapped 6-sigma bracket of the documented quantile; otherwise only decisions outside the bracket are forced",
